@@ -31,7 +31,49 @@ func (th *Thread) tokLen(tk *Token) *Term {
 		// unknown length in [2, 2^30+1]: no assertion needed
 		return mkBin("bvadd", mkBin("bvand", th.tokAttr("tk_len", 64, tk), mkBV(64, 1<<30-1)), mkBV(64, 2))
 	}
+	if tk.compact {
+		// compaction never lengthens and keeps at least one byte
+		l := th.tokAttr("tk_len", 64, tk)
+		c := th.tokAttr("tk_clen", 64, tk)
+		return mkIte(mkAnd(mkCmp("bvule", c, l), mkCmp("bvuge", c, mkBV(64, 1))), c, l)
+	}
 	return th.tokAttr("tk_len", 64, tk)
+}
+
+// tokCtl: may the token's text contain raw control bytes / inner white space
+// (pretty-printed pre-encoded JSON)?  Never for compacted or engine-built ones.
+func (th *Thread) tokCtl(tk *Token) *Term {
+	if tk.engine || tk.compact || tk.errv != nil || tk.lit != "" {
+		return tFalse
+	}
+	return mkNot(mkEq(th.tokAttr("tk_ctl", 8, tk), mkBV(8, 0)))
+}
+
+// compactToken returns the compacted form of a token (same value identity).
+func (th *Thread) compactToken(tk *Token) *Token {
+	if tk.compact || tk.errv != nil || tk.lit != "" {
+		return tk
+	}
+	if tk.engine {
+		if tk.obj == nil && tk.arr == nil {
+			return tk
+		}
+		c := *tk
+		c.obj = nil
+		for _, m := range tk.obj {
+			c.obj = append(c.obj, TokMem{key: m.key, val: th.compactToken(m.val)})
+		}
+		if tk.arr != nil {
+			c.arr = []*Token{}
+			for _, e := range tk.arr {
+				c.arr = append(c.arr, th.compactToken(e))
+			}
+		}
+		return &c
+	}
+	c := *tk
+	c.compact = true
+	return &c
 }
 
 func (th *Thread) tokKind(tk *Token) *Term {
@@ -44,6 +86,12 @@ func (th *Thread) tokKind(tk *Token) *Term {
 func (th *Thread) tokByte(tk *Token, i int) *Term {
 	if tk.lit != "" && i < len(tk.lit) {
 		return mkBV(8, uint64(tk.lit[i]))
+	}
+	if tk.compact && i > 0 {
+		// scalars have no inner white space: compaction leaves them unchanged
+		k := th.tokKind(tk)
+		scalar := mkCmp("bvule", k, mkBV(8, kString))
+		return mkIte(scalar, th.tokAttr(fmt.Sprintf("tk_b%d", i), 8, tk), th.tokAttr(fmt.Sprintf("tk_cb%d", i), 8, tk))
 	}
 	if tk.engine && i == 0 {
 		switch tk.kind {
@@ -88,6 +136,8 @@ func (th *Thread) tokWF(tk *Token) {
 		mkImplies(isK(kObject), mkAnd(mkEq(b0, c('{')), mkCmp("bvuge", l, mkBV(64, 2)))),
 		// valid JSON values carry no surrounding white space and no raw control bytes
 		mkImplies(mkNot(isK(kInvalid)), mkAnd(notWS(b0), mkCmp("bvuge", b0, c(0x20)))),
+		// only arrays and objects (and invalid text) can contain inner white space
+		mkImplies(mkCmp("bvule", k, mkBV(8, kString)), mkEq(th.tokAttr("tk_ctl", 8, tk), mkBV(8, 0))),
 	)
 	th.st.solver.Assert(wf)
 }
@@ -99,6 +149,7 @@ func (th *Thread) newFreeToken(tag string) *Token {
 	th.tokWF(tk)
 	// the kind is reported in models under <tag>.kind (needed to replay)
 	th.st.nondets = append(th.st.nondets, nondetRec{tag: tag + ".kind", term: mkZext(th.tokKind(tk), 64)})
+	th.st.nondets = append(th.st.nondets, nondetRec{tag: tag + ".ctl", term: mkZext(th.tokAttr("tk_ctl", 8, tk), 64)})
 	return tk
 }
 
